@@ -12,6 +12,7 @@ import (
 	"os"
 	"strings"
 	"sync"
+	"sync/atomic"
 	"time"
 
 	f_log "github.com/transparency-dev/formats/log"
@@ -86,6 +87,17 @@ func (sc c13Scenario) String() string {
 }
 
 // c13Exec runs one feed cycle under one chooser and applies the oracle.
+// c13StopGrace: how long a cycle whose context has ended and whose every
+// environment call is answered at once may take to return before it is held
+// to be not stopping.
+const c13StopGrace = 60 * time.Second
+
+var c13Stuck atomic.Bool
+
+func rep13Snapshot(sc c13Scenario, c *choice.C) map[string]any {
+	return map[string]any{"kind": "feed-cycle", "scenario": sc.String(), "choices": append([]int{}, c.Choices()...), "deviations": append([]string{}, c.Trace()...)}
+}
+
 func c13Exec(run *ev.Run, u *uni.U, gen *wh.CPGen, la wh.LogCfg, sc c13Scenario, c *choice.C, horizon int) {
 	m, fk := u.Main, u.Forks[0]
 	headBranch := m
@@ -263,22 +275,46 @@ func c13Exec(run *ev.Run, u *uni.U, gen *wh.CPGen, la wh.LogCfg, sc c13Scenario,
 	}
 	timers := 0
 	horizonHit := false
+	// A cycle whose context has ended has nothing left to wait for: every
+	// environment call is answered at once by the explorer. If it has not
+	// returned c13StopGrace later it does not stop when its context ends
+	// (it waits on something other than the context it was given); that is
+	// reported once and the exploration is cut there.
+	returned := make(chan struct{})
+	watch := func() {
+		sn := rep13Snapshot(sc, c)
+		go func() {
+			select {
+			case <-returned:
+			case <-time.After(c13StopGrace):
+				if c13Stuck.CompareAndSwap(false, true) {
+					run.Report(fmt.Sprintf("does-not-stop-when-context-ends kind=%s mode=%s", sc.Kind, map[bool]string{true: "real", false: "stub"}[sc.Real]),
+						fmt.Sprintf("scenario [%s], environment answers %v: the context ended while the cycle waited to retry and FeedOnce had not returned %s later (it is not waiting on the context it was given); exploration cut here", sc, sn["deviations"], c13StopGrace), sn)
+					run.Set("exhaustive", false)
+					os.Exit(run.Finish())
+				}
+			}
+		}()
+	}
 	releaseHook := wh.GoroutineTimerHook(func(d time.Duration) bool {
 		timers++
 		if timers > horizon {
 			cancelled, horizonHit = true, true
 			cancel()
+			watch()
 			return false
 		}
 		if c.Choose(2, "backoff-timer") == 1 {
 			cancelled = true
 			cancel()
+			watch()
 			return false
 		}
 		return true
 	})
 	res, err := feeder.FeedOnce(ctx, opts)
 	releaseHook()
+	close(returned)
 
 	// ------------------------------------------------------------ oracle
 	rep := map[string]any{"kind": "feed-cycle", "scenario": sc.String(), "choices": c.Choices(), "deviations": c.Trace()}
